@@ -10,10 +10,12 @@
            [1; gen; nshank; s]  (s = -1: no split)   -> same layout as mode 0 without inds
    mode 2  adc_shifts(version, nc)      [2; gen; nc] -> [1; nc'; shifts; adc]
    mode 3  rc2xy(row=a, col=b) and xy2rc(x=a, y=b)   [3; gen; n; a_0..; b_0..]
-           -> xs ++ ys ++ [DX; DY] ++ (a_i - X0) ++ (b_i - Y0) ++ exact col (1 v | 0) ++ exact row *)
+           -> xs ++ ys ++ [DX; DY] ++ (a_i - X0) ++ (b_i - Y0) ++ exact col (1 v | 0) ++ exact row
+   mode 4  _map_channels_from_meta on a map string   [4; ascii codes ...]
+           -> [1; n; shank_0; a_0; b_0; flag_0; ...]  or [0] (ValueError) *)
 From Coq Require Import ZArith List Bool.
 From IBL.lib Require Import PyInt RunLib.
-From IBL.C08 Require Import Model.
+From IBL.C08 Require Import Model Scan.
 Import ListNotations.
 Open Scope Z_scope.
 
@@ -58,6 +60,12 @@ Definition run (inp : list Z) : list Z :=
       ++ map (fun x => x - X0 gg) a ++ map (fun y => y - Y0 gg) b
       ++ flat_map (fun x => enc_option (fun v => [v]) (xy2c gg x)) a
       ++ flat_map (fun y => enc_option (fun v => [v]) (xy2r gg y)) b
+  | 4 :: text =>
+      match parse_map text with
+      | Some sites => 1 :: Z.of_nat (length sites)
+                        :: flat_map (fun s => [s_shank s; s_a s; s_b s; s_flag s]) sites
+      | None => [0]
+      end
   | _ => [-999]
   end.
 
